@@ -240,7 +240,20 @@ func c15handler(c *Ctx) {
 			}
 			c.R.Add("enabled_compared", 1)
 		}
-		// Handle: exactly one record at the underlying logger's destination
+		// Handle: exactly one record at the underlying logger's destination. A log/slog.Logger only calls Handle
+		// after Enabled said yes, so Handle is driven directly only for records the logger admits (a handler that
+		// gates again inside Handle is just as correct; the not-admitted side is covered through the Logger below).
+		if !oddLevel && !lg.Enabled(stdNames[std]) {
+			sl := stdslog.New(cur)
+			log.Reset()
+			sl.Log(bg, std, "via-logger")
+			if n := len(log.Writes("W")); n != 0 {
+				c.R.Violation(idx, "gated-by-logger", "C15/gated-by-logger/"+derived, fmt.Sprintf("slog.Logger.Log(%v) produced %d record(s) although the underlying logger (level %v) does not admit %v", std, n, L, stdNames[std]), desc)
+			}
+			c.R.Add("not_admitted_records_silent", 1)
+			c.R.NonTrivial("silent", idx)
+			return
+		}
 		log.Reset()
 		m1, m2 := fds.mark()
 		_ = decoy
